@@ -23,6 +23,9 @@ DD = {"D": 0, "D+P": 1, "P": 2, "[]": 3}
 DEL = {None: 0, "P": 1, "D+P": 2}
 
 
+S_MAX = [255]      # largest stored fragment number in a reachable state (set by state_invariant)
+
+
 def domain(tier):
     if tier == "thorough":
         v = np.arange(256, dtype=np.int64)
@@ -30,8 +33,34 @@ def domain(tier):
         v = np.array([0, 1, 2, 3, 4, 5, 9, 10, 126, 127, 128, 129, 253, 254, 255], dtype=np.int64)
     K = v.reshape(-1, 1, 1)
     N = v.reshape(1, -1, 1)
-    S = v.reshape(1, 1, -1)
+    sv_ = v[v <= S_MAX[0]]
+    S = sv_.reshape(1, 1, -1)
     return v, K, N, S
+
+
+def state_invariant(fsm):
+    """The properties quantify over the states reachable by some sequence of lines.  The stored
+    fragment number never exceeds 254: it is 0 initially and every transition keeps it, resets it to
+    0, or stores k on a path whose guard implies k < n <= 255.  Proved here on the extracted cells
+    (inductive step: assume s <= 254, evaluate the guards on a domain containing 253..255).  When
+    the proof succeeds the comparison domain is restricted to s <= 254, else it stays 0..255."""
+    S_MAX[0] = 254
+    v, K, N, S = domain("quick")
+    ok = True
+    for c in fsm.cells:
+        if c.post_s in ("s", "0"):
+            continue
+        if c.post_s != "k":
+            ok = False
+            break
+        for (cname, sp, sv, idv, id_equal) in id_classes(c):
+            for decode in (0, 1):
+                mask, _ = eval_guard(c, K, N, S, sp, sv, idv, decode)
+                if (mask & (np.broadcast_to(K, mask.shape) > 254)).any():
+                    ok = False
+    if not ok:
+        S_MAX[0] = 255
+    return ok
 
 
 def id_classes(c):
@@ -121,8 +150,10 @@ def _eval_task(args):
         masks.append(mask if mask.any() else None)
     ncells = sum(1 for m in masks if m is not None)
     npoints = 0
-    Sb = np.broadcast_to(S, (len(v),) * 3)
-    Kb = np.broadcast_to(K, (len(v),) * 3)
+    shape3 = (len(v), len(v), S.shape[2])
+    svals = S.reshape(-1)
+    Sb = np.broadcast_to(S, shape3)
+    Kb = np.broadcast_to(K, shape3)
     for (u_ok, p_ok) in ((True, True), (True, False), (False, True), (False, False)):
         if not decode and (u_ok, p_ok) != (True, True):
             continue
@@ -149,7 +180,7 @@ def _eval_task(args):
             for (b_, which) in ((bad, "effect"), (bad_s, "post_s")):
                 if b_.any():
                     idx = tuple(np.argwhere(b_)[0])
-                    pt = (int(v[idx[0]]), int(v[idx[1]]), int(v[idx[2]]))
+                    pt = (int(v[idx[0]]), int(v[idx[1]]), int(svals[idx[2]]))
                     names = ["result", "post_D", "delivered", "post_sid"] if which == "effect" else ["post_s"]
                     for name in names:
                         want = int(R[name][idx])
@@ -164,18 +195,20 @@ def _eval_task(args):
         npoints += cover.size
         if (cover == 0).any():
             idx = tuple(np.argwhere(cover == 0)[0])
-            pt = (int(v[idx[0]]), int(v[idx[1]]), int(v[idx[2]]))
+            pt = (int(v[idx[0]]), int(v[idx[1]]), int(svals[idx[2]]))
             out.append(("v", "fsm/uncovered/k%d,n%d,s%d,%s,decode%d,u%d,p%d" % (pt[0], pt[1], pt[2], cname, decode, u_ok, p_ok),
                         "no extracted transition covers k=%d n=%d s=%d ids %s decode=%d (a panic or an unanalysed path)" % (pt[0], pt[1], pt[2], cname, decode), gi))
         if (cover > 1).any():
             idx = tuple(np.argwhere(cover > 1)[0])
-            pt = (int(v[idx[0]]), int(v[idx[1]]), int(v[idx[2]]))
+            pt = (int(v[idx[0]]), int(v[idx[1]]), int(svals[idx[2]]))
             out.append(("v", "fsm/overlap/k%d,n%d,s%d,%s" % (pt[0], pt[1], pt[2], cname), "two extracted transitions cover k=%d n=%d s=%d ids %s" % (pt[0], pt[1], pt[2], cname), gi))
     return out, npoints, ncells, cname, decode
 
 
 def compare(ctx, chk, pid, cfg, tier):
     fsm = get_fsm(ctx, cfg)
+    inv = state_invariant(fsm)
+    chk.note("%s: reachable-state invariant fragment_number <= 254 %s" % (cfg, "proved inductive on the extracted relation; comparison restricted to it" if inv else "NOT proved; comparing on all of 0..255"))
     groups = {}
     for c in fsm.cells:
         groups.setdefault(shape_key(c), []).append(c)
